@@ -83,7 +83,12 @@ func parseLocation(zone string) (*time.Location, error) {
 	if zone == "" {
 		return time.UTC, nil
 	}
-	if tm, err := time.Parse("MST", zone); err == nil {
+	// A zone abbreviation is resolved without consulting the process's local
+	// time zone: time.Parse gives an abbreviation the offset it has in time.Local
+	// when that zone happens to know it ("EST" on a host in New York) and a zero
+	// offset otherwise, which made the same element denote different instants on
+	// different hosts.
+	if tm, err := time.ParseInLocation("MST", zone, time.UTC); err == nil {
 		return tm.Location(), nil
 	}
 	if tm, err := time.Parse("Z07:00", zone); err == nil {
